@@ -105,6 +105,15 @@ class Calls(Interp):
             return ClassV(ci)
         mattr = self.mangle(attr)
         k, m = self.repo.find_method(ci, mattr)
+        # a class-level data attribute earlier in the MRO shadows a method later in it
+        for c in ci.mro:
+            if c is k:
+                break
+            if isinstance(c, ClassInfo) and mattr in c.assigns and mattr not in c.methods and mattr not in c.properties:
+                v = self.class_data(c, mattr, node)
+                if isinstance(v, FuncV) and isinstance(v.node, ast.Lambda):
+                    return BoundV(obj, v, mattr)     # a plain function in a class body is a method
+                return v
         if m is not None:
             if isinstance(m, tuple):
                 getter = m[1][0]
@@ -305,10 +314,12 @@ class Calls(Interp):
                 return self.apply_contract(fn, f.recv, args, kwargs, node, star, dstar, mname=f.name)
             if isinstance(fn, tuple) and fn[0] == "builtin":
                 if star is not None or dstar is not None:
-                    if isinstance(star, (PSeq, SV)) and fn[1] == "set" and f.name == "update":
-                        pass
-                    else:
-                        self.unsupported(node, "star args to builtin method")
+                    if fn[1] == "str" and f.name == "format":
+                        seq = so.seq_of([f.recv.term] + [self.str_arg(a, node) for a in args])
+                        if star is not None:
+                            seq = z3.Concat(seq, self.as_seq(star, node))
+                        return SV(Val.strv(so.fmt(z3.StringVal("format*"), seq)), "str")
+                    self.unsupported(node, "star args to builtin method")
                 return self.builtin_method(fn[1], f.name, f.recv, args, kwargs, node)
         if isinstance(f, FuncV):
             return self.call_function(f, list(args), kwargs, node, star, dstar)
@@ -354,6 +365,8 @@ class Calls(Interp):
         if c is not None and not c.inline and not (self.st.frames == [] ):
             if self.verifying_key == key and len(self.st.frames) == 0:
                 c = None
+        if c is not None and key in self.reg.inline_fresh and args and self.is_fresh(args[0]):
+            c = None       # receiver built on this path: execute the real body on it
         if c is not None and not c.inline:
             recv = None
             a = list(args)
@@ -406,6 +419,15 @@ class Calls(Interp):
         defaults = a.defaults
         locs = {}
         kwargs = dict(kwargs)
+        if star is not None and not isinstance(star, TupV):
+            items = static_seq_items(z3.simplify(self.as_seq(star, node)))
+            if items is not None:
+                args = list(args) + [self.from_term(t, self.elem_tag(star)) for t in items]
+                star = None
+        if dstar is not None:
+            dm = z3.simplify(self.as_map(dstar, node))
+            if dm.eq(z3.simplify(so.EMPTY_KW)):
+                dstar = None
         nposdef = len(params) - len(defaults)
         pos = list(args)
         dmap = None
@@ -1530,6 +1552,25 @@ class LazyMapV(Value):
         eng.assume(z3.Length(out) == z3.Length(seq))
         eng.assume(z3.ForAll([j], z3.Implies(z3.And(0 <= j, j < z3.Length(seq)), out[j] == body), patterns=[out[j]]))
         return PSeq(out)
+
+
+def static_seq_items(t):
+    """items of a sequence term of statically known length, else None"""
+    if z3.is_app(t):
+        k = t.decl().kind()
+        if k == z3.Z3_OP_SEQ_EMPTY:
+            return []
+        if k == z3.Z3_OP_SEQ_UNIT:
+            return [t.arg(0)]
+        if k == z3.Z3_OP_SEQ_CONCAT:
+            out = []
+            for ch in t.children():
+                sub = static_seq_items(ch)
+                if sub is None:
+                    return None
+                out.extend(sub)
+            return out
+    return None
 
 
 def BoundOrField(eng, obj, attr):
